@@ -124,6 +124,13 @@ def run(ctx):
     res.suites = ["print (str(tree) vs extracted Printer.show_top: exact text for dyadic constants, token-wise otherwise)",
                   "oracle: parse(str(t)) succeeds, same variable set, same exact values / same solution set at 8+ assignments"]
     ts = [t for t in trees(ctx) if printable(t)]
+    # constants whose decimal text has zeros directly after the point (0.0078125), large integer parts, negative fractions
+    from fractions import Fraction as F
+    decs = [("c", ("f", F(n, d))) for n, d in [(1, 128), (1, 64), (1, 1024), (3, 256), (-5, 512), (100001, 1000 * 1), (1, 16), (-1, 32), (12345, 1024), (7, 8), (1, 512)]
+            if d & (d - 1) == 0] + [("c", ("f", F(100, 1) + F(1, 1024))), ("c", ("f", F(-3, 1) - F(1, 64)))]
+    x = P.V("x")
+    for c in decs:
+        ts += [c, ("mul", c, x), ("mul", c, ("pow", x, P.C(2))), ("pow", x, c), ("neg", c), ("add", x, c), ("pow", c, P.C(2)), ("eq", ("mul", c, x), c), ("neg", ("mul", c, x)), ("div", c, ("sub", x, c))]
     model = model_print(ts) if ctx.driver_ok else [None] * len(ts)
     for t, m in zip(ts, model):
         res.evaluations += 1
